@@ -307,6 +307,29 @@ fn run(input: RunInput) -> ScenFuture {
             }
             retired_raw.push(raw);
         }
+        // ---- a stall of the whole process (a suspended VM, a long stop-the-world pause): the clock
+        //      jumps across both the handler's completion and the serving side's deadline. The
+        //      handler needed less than the deadline, so it "is answered normally"; only a caller
+        //      without a deadline of its own can tell (its own would have expired in the jump) ----
+        if let (Some(din), None) = (d_in, d_out) {
+            if din >= 100 && !w.violated() && w.flag("clock_jump_phase", 0.5) {
+                let h_ms = r.gen_range(5..din.min(400) - 40);
+                let jump_ms = (din - h_ms / 2) + r.gen_range(50..400);
+                let req = Request::new(Bytes::from_static(b"jump")).with_header("x-nonce", "5000").with_header("x-delay-us", (h_ms * 1000).to_string());
+                let fut = client.net.rpc(server.peer_id, req);
+                let jumper = async {
+                    sleep_us(h_ms * 1000 / 2 + 2 * lat_max_us).await;
+                    tokio::time::advance(Duration::from_millis(jump_ms)).await;
+                };
+                let (res, _) = futures::future::join(fut, jumper).await;
+                let ok = matches!(&res, Ok(resp) if resp.status() == anemo::types::response::StatusCode::Success && resp.headers().get("x-done").is_some());
+                if !ok {
+                    w.violate("handler-needing-less-not-answered-normally", format!("in={din}"), format!("a handler needing {h_ms} ms under a serving-side deadline of {din} ms, with the whole process stalled for {jump_ms} ms from {} ms on: the caller received {:?}", h_ms / 2, res.as_ref().map(|r| r.status()).map_err(|e| format!("{e:#}"))));
+                }
+                w.probe("clock-jump-across-completion-and-deadline");
+                sleep_us(2 * lat_max_us + 3000).await;
+            }
+        }
         // ---- the wait for a stream counts: with the server's stream budget taken by slow
         //      requests, a further request with a short timeout header fails at its deadline ----
         let occupancy_ms = d_out.unwrap_or(u64::MAX).min(d_in.unwrap_or(u64::MAX)).min(3_000);
